@@ -626,7 +626,50 @@ def _conc_scenarios(rng, n, gc):
             scen.append("cfg bits=8 imax=%d pmax=1048576 timeout_ms=3000\n" % rng.choice((40, 52, 64)) + "\n".join(setup) + "\n" +
                         "".join("thread %s %s\n" % t for t in th) + "schedule " + " ".join(sched) + "\n")
             continue
-        pool = MKEYS if (gc and fam < 0.8) else CKEYS
+        if gc and fam < 0.7:
+            # reader across overwrite + flush + primary GC: a call looks K up in the index and parks before it reads the primary; K is
+            # overwritten (or removed), the change is flushed, a primary cycle reclaims the old record (marks it; truncates its file when the
+            # limit is small); K was bound throughout an overwrite, so the parked call must still answer one of its values
+            K = rng.choice(MKEYS)
+            others = [k for k in MKEYS if k != K]
+            vals = ["61", "6262", "636363", "6464646464646464"]
+            pmax = rng.choice((30, 44, 60, 1048576))
+            pre = ["setup put %s %s" % (k, rng.choice(vals)) for k in rng.sample(others, rng.randint(0, 2))]
+            post = ["setup put %s %s" % (k, rng.choice(vals)) for k in rng.sample(others, rng.randint(0, 3))]
+            setup = pre + ["setup put %s %s" % (K, rng.choice(vals))] + (["setup flush"] if rng.random() < 0.5 else []) + post + ["setup flush"]
+            rop = rng.choice(("get", "get", "has", "size"))
+            wop = rng.choice(("put %s 7a7a7a" % K, "put %s 7a7a7a" % K, "put %s 7b" % K, "remove %s" % K))
+            th = [("T0", "%s %s" % (rop, K)), ("T1", wop), ("F1", "flush"), ("G1", "pgc %d" % rng.choice((25, 50, 90)))]
+            if rng.random() < 0.3:
+                th.append(("T2", "%s %s" % (rng.choice(("get", "has", "size")), rng.choice([K] + others))))
+            sched = ["T0"] * rng.choice((1, 2, 2, 2, 3)) + ["T1"] * 8 + ["F1"] * 12 + ["G1"] * 12
+            if rng.random() < 0.3:
+                names = [t[0] for t in th]
+                sched = ["T0"] * 2 + [rng.choice(names[1:]) for _ in range(rng.randint(10, 40))] + ["T1"] * 8 + ["F1"] * 12 + ["G1"] * 12
+            scen.append("cfg bits=8 imax=1048576 pmax=%d timeout_ms=3000\n" % pmax + "\n".join(setup) + "\n" +
+                        "".join("thread %s %s\n" % t for t in th) + "schedule " + " ".join(sched + ["T0"] * 4) + "\n")
+            continue
+        if gc and fam < 0.8:
+            # index reader across flush + index GC: a call reads its bucket's position under the read lock and parks before it reads the
+            # record list from the file; a flush supersedes the list, an index cycle unlinks / truncates / marks it
+            B7 = ["120607070701010a", "120607070702020b", "120607070703030c", "12060707070102ee"]
+            OB = ["120608070702020b", "120609070702020b", "12060a070702020b", "12060b070702020b"]
+            setup = []
+            for k in rng.sample(B7[:2] + OB, rng.randint(3, 6)):
+                setup += ["setup put %s %s" % (k, rng.choice(("61", "6262", "636363"))), "setup flush"]
+            if not any(B7[0] in x for x in setup):
+                setup = ["setup put %s 6161" % B7[0], "setup flush"] + setup
+            rop = rng.choice(("get", "get", "has", "size", "put", "remove"))
+            t0 = "put %s 7c7c" % B7[0] if rop == "put" else "%s %s" % (rop, B7[0])
+            th = [("T0", t0), ("T1", "put %s %s" % (rng.choice(B7[2:]), "7a7a")), ("F1", "flush"), ("G1", "igc %d" % rng.randint(0, 1))]
+            sched = ["T0"] + ["T1"] * 8 + ["F1"] * 12 + ["G1"] * 14
+            if rng.random() < 0.3:
+                names = [t[0] for t in th]
+                sched = ["T0"] + [rng.choice(names[1:]) for _ in range(rng.randint(10, 40))] + ["T1"] * 8 + ["F1"] * 12 + ["G1"] * 14
+            scen.append("cfg bits=8 imax=%d pmax=1048576 timeout_ms=3000\n" % rng.choice((40, 52, 64)) + "\n".join(setup) + "\n" +
+                        "".join("thread %s %s\n" % t for t in th) + "schedule " + " ".join(sched + ["T0"] * 6) + "\n")
+            continue
+        pool = MKEYS if (gc and rng.random() < 0.5) else CKEYS
         keys = rng.sample(pool, rng.randint(2, 4))
         vals = ["61", "6262", "636363", "-", "6464646464646464"]
         setup = []
